@@ -128,3 +128,52 @@ def lift(v, limit=64):
                 ib = [y.b if isinstance(y, Phi) and key(y.cond) == ck_ else y for y in v.items]
                 return Phi(x.cond, lift(Seq(v.kind, ia), limit), lift(Seq(v.kind, ib), limit))
     return v
+
+
+def _alias_like(v):
+    if isinstance(v, (ast.Name, ast.Attribute, ast.Subscript, ast.Compare)):
+        return True
+    if isinstance(v, ast.Call) and ntext(v.func) in ("int", "len", "float", "abs") and len(v.args) == 1:
+        return True
+    if isinstance(v, ast.Call) and isinstance(v.func, ast.Attribute) and not v.args and not v.keywords:
+        return True  # zero-argument accessor such as self.maxWidthPerLayer()
+    return False
+
+
+def resolve_local(f, e, depth=0):
+    """Text of expression e with local names that have exactly one assignment in f replaced by
+    their defining expression (recursively, small depth): makes table look-ups robust against
+    hoisting a sub-expression into a local."""
+    import copy
+
+    if depth > 3 or f is None or f.is_lambda:
+        return ntext(e)
+    defs = {}
+    for n in walk_local(f.node):
+        if isinstance(n, ast.Assign) and len(n.targets) == 1 and isinstance(n.targets[0], ast.Name):
+            defs.setdefault(n.targets[0].id, []).append(n.value)
+        elif isinstance(n, (ast.AugAssign, ast.For, ast.comprehension, ast.NamedExpr, ast.With)):
+            for t in ast.walk(n.target if hasattr(n, "target") else n):
+                if isinstance(t, ast.Name) and isinstance(getattr(t, "ctx", None), ast.Store):
+                    defs.setdefault(t.id, []).append(None)
+        elif isinstance(n, ast.Assign):
+            for t in n.targets:
+                for x in ast.walk(t):
+                    if isinstance(x, ast.Name) and isinstance(x.ctx, ast.Store):
+                        defs.setdefault(x.id, []).append(None)
+
+    class Sub(ast.NodeTransformer):
+        def visit_Name(self, node):
+            if isinstance(node.ctx, ast.Load) and node.id in defs and len(defs[node.id]) == 1 and defs[node.id][0] is not None and _alias_like(defs[node.id][0]):
+                v = defs[node.id][0]
+                # do not expand self-referential definitions such as `step = int(step)` more than once
+                inner = copy.deepcopy(v)
+                if any(isinstance(x, ast.Name) and x.id == node.id for x in ast.walk(inner)):
+                    return inner
+                return ast.parse(resolve_local(f, inner, depth + 1), mode="eval").body
+            return node
+
+    try:
+        return ntext(Sub().visit(copy.deepcopy(e)))
+    except Exception:
+        return ntext(e)
